@@ -164,3 +164,15 @@ Theorem C14_out_of_scope_refuted :
     Apk.spec_cmp a b = Some c /\ Alpine.SpecFacts.in_scope a = false /\ v_cmp Alpine.Entry.v a b = None.
 Proof. exact Alpine.SpecFacts.alpine_cmp_is_spec_refuted_out_of_scope. Qed.
 Print Assumptions C14_out_of_scope_refuted.
+
+(* ====== ties to the source: BEGIN (written by bin/mkties) ====== *)
+(* The Go functions named here are translated into Gallina from /repo's source on every run
+   (tools/gen/code.go -> Gen/Code/<Eco>.v); Tie/<Eco>.v, Tie/<Eco>Range.v prove each translation equal to the
+   model the theorems above speak about.  If the code changes so that a tie no longer holds,
+   this file no longer checks. *)
+From Verif.Tie Require Alpine.
+Definition C14_tie_alpine_compareInt := Verif.Tie.Alpine.tie_alpine_compareInt.
+Print Assumptions C14_tie_alpine_compareInt.
+Definition C14_tie_alpine_compareLetters := Verif.Tie.Alpine.tie_alpine_compareLetters.
+Print Assumptions C14_tie_alpine_compareLetters.
+(* ====== ties to the source: END ====== *)
